@@ -34,12 +34,15 @@ theorem wfs_renameStep {sv : Server} (h : WFs sv) (d n n' : String) (dt : Bool) 
       | false => simp only [Bool.false_eq_true, if_false]; exact w2
     · exact wfs_setDb w2 d (wfdb_renameIn (wfdb_db w2 d) n n')
 
-theorem wf_setStore {w : World} (h : WF w) (i : Nat) {sv : Server} (hs : WFs sv) :
-    WF (w.setStore i sv) := by
-  refine ⟨?_, h.2⟩
-  intro j; simp only [World.setStore, upd_apply]; split
-  · exact hs
-  · exact h.1 j
+theorem wf_setStore {w : World} (h : WF w) (i : Nat) {sv : Server} (hs : WFs sv)
+    (hr : RecS sv) : WF (w.setStore i sv) := by
+  refine ⟨?_, h.2.1, ?_⟩
+  · intro j; simp only [World.setStore, upd_apply]; split
+    · exact hs
+    · exact h.1 j
+  · intro j; simp only [World.setStore, upd_apply]; split
+    · exact hr
+    · exact h.2.2 j
 
 theorem wf_addDbCache {w : World} (h : WF w) (c : Nat) (d : String) : WF (addDbCache w c d) := by
   unfold addDbCache; split <;> exact h
@@ -48,33 +51,35 @@ theorem wf_addCollCache {w : World} (h : WF w) (c : Nat) (d n : String) (hv : va
     WF (addCollCache w c d n) := by
   unfold addCollCache; split
   · exact h
-  · refine ⟨h.1, ?_⟩
+  · refine ⟨h.1, ?_, h.2.2⟩
     intro c' d' n' hm
     simp only [upd2] at hm
     split at hm
     · rcases List.mem_append.mp hm with hm | hm
-      · exact h.2 c d n' hm
+      · exact h.2.1 c d n' hm
       · simp at hm; rw [hm]; exact hv
-    · exact h.2 c' d' n' hm
+    · exact h.2.1 c' d' n' hm
 
 theorem wf_init : WF World.init := by
-  refine ⟨fun _ => wfs_nil, ?_⟩
+  refine ⟨fun _ => wfs_nil, ?_, fun _ => recS_nil⟩
   intro c d n hm; simp [World.init] at hm
 
 theorem wf_dropDatabaseStep (σ : Nat → Nat) {w : World} (c : Nat) (d : String) (h : WF w) :
     WF (dropDatabaseStep σ w c d).1 := by
   simp only [dropDatabaseStep]
   have wx : WFs ((w.store (σ c)).touchDb d) := wfs_touchDb (h.1 _) d
+  have rx : RecS ((w.store (σ c)).touchDb d) := recS_touchDb (h.2.2 _) d
   split
-  · exact wf_addDbCache (wf_setStore h _ (wfs_setDb wx d (wfdb_dropAll (wfdb_db wx d)))) c d
-  · exact wf_setStore h _ wx
+  · exact wf_addDbCache (wf_setStore h _ (wfs_setDb wx d (wfdb_dropAll (wfdb_db wx d)))
+      (recS_dropAll rx d)) c d
+  · exact wf_setStore h _ wx rx
 
 theorem wf_step (σ : Nat → Nat) (w : World) (op : Op) (h : WF w) : WF (Catalog.step σ w op).1 := by
   cases op with
   | getDb c d =>
     simp only [Catalog.step]; split
     · exact h
-    · exact wf_addDbCache (wf_setStore h _ (wfs_touchDb (h.1 _) d)) c d
+    · exact wf_addDbCache (wf_setStore h _ (wfs_touchDb (h.1 _) d) (recS_touchDb (h.2.2 _) d)) c d
   | getColl hh n =>
     simp only [Catalog.step, unob]; split
     · exact h
@@ -87,10 +92,11 @@ theorem wf_step (σ : Nat → Nat) (w : World) (op : Op) (h : WF w) : WF (Catalo
     simp only [Catalog.step, unob]; split
     · exact h
     · exact wf_setStore h _ (wfs_setColl (h.1 _) _ _ _)
+        (recS_setColl (h.2.2 _) _ _ (collOp_recorded o _ (h.2.2 _ _ _)))
   | collRename hh n' dt =>
     simp only [Catalog.step, unob]; split
     · exact h
-    · exact wf_setStore h _ (wfs_renameStep (h.1 _) _ _ _ _)
+    · exact wf_setStore h _ (wfs_renameStep (h.1 _) _ _ _ _) (recS_renameStep (h.2.2 _) _ _ _ _)
   | createCollection hh n =>
     simp only [Catalog.step, unob]; split
     · exact h
@@ -99,21 +105,24 @@ theorem wf_step (σ : Nat → Nat) (w : World) (op : Op) (h : WF w) : WF (Catalo
       · rename_i hv
         split
         · exact h
-        · exact wf_addCollCache (wf_setStore h _ (wfs_setColl (h.1 _) _ _ _)) _ _ _ (by simpa using hv)
+        · exact wf_addCollCache (wf_setStore h _ (wfs_setColl (h.1 _) _ _ _)
+            (recS_setColl (h.2.2 _) _ _ (recorded_of_flag rfl))) _ _ _ (by simpa using hv)
   | dropCollection hh t =>
     cases t with
     | byName n =>
       simp only [Catalog.step, unob]; split
       · exact h
       · exact wf_setStore h _ (wfs_setColl (h.1 _) _ _ _)
+          (recS_setColl (h.2.2 _) _ _ recorded_empty)
     | byHandle h' =>
       simp only [Catalog.step, unob]; split
       · exact h
       · exact wf_setStore h _ (wfs_setColl (h.1 _) _ _ _)
+          (recS_setColl (h.2.2 _) _ _ recorded_empty)
   | renameCollection hh n n' dt =>
     simp only [Catalog.step, unob]; split
     · exact h
-    · exact wf_setStore h _ (wfs_renameStep (h.1 _) _ _ _ _)
+    · exact wf_setStore h _ (wfs_renameStep (h.1 _) _ _ _ _) (recS_renameStep (h.2.2 _) _ _ _ _)
   | listCollectionNames hh f =>
     cases f with
     | none => simp only [Catalog.step, unob]; split <;> exact h
